@@ -262,7 +262,7 @@ func tierBounds(tier string, sc *scenario) bounds {
 		}
 		return b
 	}
-	return bounds{depth: 6, maxStates: 20000, foreign: []string{"queue", "markUnschedulable", "schedulingBackoff", "nodepool", "scheduler"}, maxTargets: 2}
+	return bounds{depth: 6, maxStates: 20000, foreign: []string{"queue", "markUnschedulable", "schedulingBackoff", "nodepool", "nodepool-removed", "scheduler"}, maxTargets: 2}
 }
 
 func permutations(n int) [][]int {
